@@ -2,4 +2,20 @@ from harness.props._engine_common import make
 
 GEN = ["Engine", "Stale"]
 
-explore, search, replay = make({"C01"})
+
+def extras(ctx, replay=None):
+    """C01 with a registry: histories of real runs on in-memory stores; in every run a call that starts has seen every call
+    without a store that it depends on directly return, in this run (cache_explore, property "C01")"""
+    from harness import cache_explore as ce
+    if replay is not None:
+        if "spec" in replay and "hseed" in replay:
+            return ce.replay_cache(ctx, replay, {"C01"})
+        return None
+    h = ce.explore_cache(ctx, {"C01"}, 80 if ctx.tier == "quick" else 1500, steps=5)
+    for v in h["violations"]:
+        v.setdefault("replay_fn", "cache-history")
+    return {"violations": h["violations"], "disagreements": h["disagreements"],
+            "coverage": {"registry_histories": h["coverage"].get("histories", 0), "registry_runs_ok": h["coverage"].get("runs_ok", 0)}}
+
+
+explore, search, replay = make({"C01"}, extra=extras)
